@@ -189,8 +189,9 @@ class JokerSamples:
                 )
             )
 
-        if not hasattr(val, "unit"):
-            val = val * u.one  # eccentricity
+        if getattr(val, "unit", None) is None:
+            # eccentricity etc.: plain numbers, or a table column without a unit
+            val = u.Quantity(np.asarray(val), u.one)
 
         expected_unit = self._valid_units[key]
         if not val.unit.is_equivalent(expected_unit):
